@@ -333,6 +333,11 @@ pub(crate) fn run(opts: &Opts, report: &mut Report) {
                         let n = sim.world.chains[0].number_of(h).unwrap_or(0);
                         bad.push(("waits-for-abandoned-block".into(), format!("the client still waits for block {} ({:#x}) of the abandoned branch", n, h)));
                     }
+                    // a run that came to rest cleanly has no request left on record (an answer that
+                    // arrives after the switch still answers its request)
+                    if outcome.converged && sim.queue.is_empty() && sim.held.is_empty() && !bad.iter().any(|(k, _)| k == "stall" || k == "not-caught-up" || k == "waits-for-abandoned-block") {
+                        bad.extend(oracle::outstanding_requests(sim));
+                    }
                 }
                 let groups = oracle::group(bad);
                 if !groups.is_empty() {
